@@ -238,6 +238,15 @@ def corpus_cases():
          "rows": [[1, "0", "10", 1, "iv", "0"], [1, "1", "0", 0, None, "3"], [2, "0", "0", 0, None, "1"],
                   [2, "0.5", "10", 1, "oral", "0"], [2, "2", "0", 0, None, "4"], [3, "0", "0", 3, None, "0"],
                   [3, "1", "0", 0, None, "2"], [4, "0", "5", 4, "iv", "0"], [4, "1", "0", 0, None, "2"]]},
+        # fixed 208e5ef: EVID 4 after a pre-dose sample is a dose
+        {"kind": "adm", "route": "iv", "idname": "ID", "cols": {"evid": True, "cmt": False, "adm": False}, "seed": 4,
+         "rows": [[1, "0", "0", 0, None, "1"], [1, "1", "5", 4, "iv", "0"], [1, "2", "0", 0, None, "2"]]},
+        # fixed 8cc2213: id column not named ID
+        {"kind": "adm", "route": "iv", "idname": "SUBJ", "cols": {"evid": True, "cmt": False, "adm": False}, "seed": 5,
+         "rows": [[1, "0", "5", 1, "iv", "0"], [1, "1", "0", 0, None, "2"], [2, "0", "0", 0, None, "2"]]},
+        # fixed 05d598c: admid column, model dosing only into DEPOT
+        {"kind": "adm", "route": "oral", "idname": "ID", "cols": {"evid": True, "cmt": False, "adm": True}, "seed": 6,
+         "rows": [[1, "0", "5", 1, "oral", "0"], [1, "1", "0", 0, None, "2"], [1, "2", "0", 2, None, "0"]]},
         # get_cmt from an admid column
         {"kind": "adm", "route": "ivoral", "idname": "ID", "cols": {"evid": True, "cmt": False, "adm": True}, "seed": 3,
          "rows": [[1, "0", "10", 1, "oral", "0"], [1, "1", "0", 0, None, "3"], [1, "2", "10", 1, "iv", "0"],
@@ -901,7 +910,7 @@ def run_adm_case(case, drv):
         return base.replace(dataset=frame, datainfo=DataInfo.create(ci))
     model = mkmodel(df)
     orig = df.copy(deep=True)
-    acfg = [int(cols["cmt"]), int(cols["adm"]), st["doseCmt"], "none" if st["central"] is None else st["central"],
+    acfg = [int(cols["cmt"]), int(cols["adm"]), st["doseCmt"], st["centralNum"], int(st["central"] is not None),
             "none" if st["other"] is None else st["other"], [[a, b] for a, b in st["remap"]]]
     wrows = [[str(r["id"]), str(r["evid"]), str(r["cmt"]), str(r["adm"])] for r in recs]
     # contiguous runs of one id = individuals as the event records present them
@@ -1008,8 +1017,6 @@ def run_adm_case(case, drv):
         if cols["adm"] and not cols["cmt"] and st["central"] is None and res.startswith("UnboundLocalError"):
             mon.append({"cls": "cmt-central-number-unbound", "what": f"get_cmt with an admid column and a model whose central "
                         f"compartment takes no dose raises {res}"})
-            if drv is not None and drv.ask(["cmt", acfg, wrows]) != ["err", "UnboundLocalError"]:
-                k.append("get_cmt: code raises UnboundLocalError, model does not")
         elif n == 1 and res.startswith(("AttributeError", "TypeError")):
             mon.append({"cls": "single-record-squeeze", "what": f"get_cmt on a one-record dataset raised {res}"})
         else:
